@@ -1,4 +1,4 @@
-CONSTANTS MaxLen = 4  MaxByte = 3  MaxPasses = 2  Bug = "NoCycleGuard"
+CONSTANTS MaxLen = 4  MaxByte = 3  MaxPasses = 2  MaxDepth = 1  Bug = "NoCycleGuard"
 INIT Init
 NEXT Next
 INVARIANT Robust
